@@ -23,6 +23,10 @@ type c05Failer struct{ env *c05Env }
 
 func (f c05Failer) Fail() (string, error)          { f.env.reached = true; return "", ErrSentinel }
 func (f c05Failer) Echo(v interface{}) interface{} { return v }
+func (f c05Failer) FailP() (Person, error) {
+	f.env.reached = true
+	return Person{Name: "zero"}, ErrSentinel
+}
 
 func (e *c05Env) context() *plush.Context {
 	c := plush.NewContext()
@@ -30,6 +34,11 @@ func (e *c05Env) context() *plush.Context {
 	c.Set("one", []int{7})
 	c.Set("fail", func() (string, error) { e.reached = true; return "partial", ErrSentinel })
 	c.Set("failE", func() error { e.reached = true; return ErrSentinel })
+	c.Set("failP", func() (Person, error) {
+		e.reached = true
+		return Person{Name: "zero", Tags: []string{"t"}}, ErrSentinel
+	})
+	c.Set("failL", func() ([]Person, error) { e.reached = true; return []Person{{Name: "zero"}}, ErrSentinel })
 	c.Set("mark", func(v interface{}) interface{} { e.reached = true; return v })
 	c.Set("ident", func(v interface{}) interface{} { return v })
 	c.Set("st", c05Failer{e})
@@ -62,6 +71,11 @@ var c05Atoms = []c05Atom{
 	{"helper(T,err)", `fail()`, "sentinel"},
 	{"helper(err)", `failE()`, "sentinel"},
 	{"method(T,err)", `st.Fail()`, "sentinel"},
+	{"chain-field-on-failing-helper", `failP().Name`, "sentinel"},
+	{"chain-method-on-failing-helper", `failP().Hello()`, "sentinel"},
+	{"chain-index-on-failing-helper", `failP().Tags[0]`, "sentinel"},
+	{"chain-on-failing-method", `st.FailP().Name`, "sentinel"},
+	{"index-member-on-failing", `failL()[0].Name`, "sentinel"},
 	{"int+string", `(1 + mark("a"))`, "op"},
 	{"index-out-of-range", `one[mark(9)]`, "op"},
 	{"div-by-zero", `(1 / mark(0))`, "op"},
@@ -168,7 +182,7 @@ func init() {
 			return s
 		},
 		Run:  c05Run,
-		Rule: "compositions wrapper^d ∘ statement-form ∘ expression-context^e ∘ failing-atom framed by literal text A…B: 10 block wrappers (top, if, else, for, fn body, helper block, contentFor→contentOf, contentOf default block, partial body, layout), 12 statement forms (emit, silent, let, assign, if/else-if condition, for iterable, return, partial/contentOf data), 35 expression contexts (each operand side of all 13 binary operators, !, array/hash element, index container/index, Go-helper/user-fn/method argument), 9 failing atoms (helper returning (T,err)/(err), method returning (T,err), type error, index out of range, division by zero — each with a recording call so 'reached' is measured — unknown identifier, unknown function, unknown identifier as argument). Oracle when the failing site was reached: err != nil, output empty, errors.Is(err, sentinel) for helper failures; an unknown identifier is tolerated exactly as direct condition or direct operand of ! == != && || and fails everywhere else. Non-trivial: the failing site was reached (counted).",
+		Rule: "compositions wrapper^d ∘ statement-form ∘ expression-context^e ∘ failing-atom framed by literal text A…B: 10 block wrappers (top, if, else, for, fn body, helper block, contentFor→contentOf, contentOf default block, partial body, layout), 12 statement forms (emit, silent, let, assign, if/else-if condition, for iterable, return, partial/contentOf data), 35 expression contexts (each operand side of all 13 binary operators, !, array/hash element, index container/index, Go-helper/user-fn/method argument), 14 failing atoms (helper returning (T,err)/(err), method returning (T,err), failing helper/method as head of a .field/.method()/[i] chain, type error, index out of range, division by zero — each with a recording call so 'reached' is measured — unknown identifier, unknown function, unknown identifier as argument). Oracle when the failing site was reached: err != nil, output empty, errors.Is(err, sentinel) for helper failures; an unknown identifier is tolerated exactly as direct condition or direct operand of ! == != && || and fails everywhere else. Non-trivial: the failing site was reached (counted).",
 		Bound: func(th bool) string {
 			if th {
 				return "d<=2 wrappers, e<=2 expression contexts"
